@@ -11,10 +11,10 @@ if ! diff -q <(git diff -- src) MUTANT/patch.diff >/dev/null 2>&1; then echo "no
 t=$(cargo test --offline 2>&1 | grep -E "^test result" | head -1)
 echo "existing tests with change: $t" >> "$res"
 if [ -f MUTANT/demo.sh ]; then
-  timeout 1200 sh MUTANT/demo.sh > MUTANT/confirm_with.log 2>&1; a=$?
+  timeout 1200 bash MUTANT/demo.sh > MUTANT/confirm_with.log 2>&1; a=$?
   echo "demo with change: exit $a" >> "$res"
   git apply -R MUTANT/patch.diff || echo "reverse apply failed" >> "$res"
-  timeout 1200 sh MUTANT/demo.sh > MUTANT/confirm_without.log 2>&1; b=$?
+  timeout 1200 bash MUTANT/demo.sh > MUTANT/confirm_without.log 2>&1; b=$?
   echo "demo without change: exit $b" >> "$res"
   git apply MUTANT/patch.diff
 else
